@@ -486,6 +486,9 @@ func Driver(propID, tier string, baseSeed uint64) int {
 						return
 					}
 					kind := "crash"
+					if strings.Contains(string(lb), "WARNING: DATA RACE") {
+						kind = "data-race"
+					}
 					if hung {
 						kind = "hang"
 					}
@@ -530,6 +533,7 @@ func Driver(propID, tier string, baseSeed uint64) int {
 	})
 	seen := map[string]bool{}
 	violations := 0
+	unconfirmed := 0
 	knownHit := map[string]bool{}
 	var knownLines []string
 	exit := 0
@@ -561,8 +565,21 @@ func Driver(propID, tier string, baseSeed uint64) int {
 			continue
 		}
 		code := runReplayProcess(exeFor(f.Variant), f.Replay, f.Variant)
-		if (strings.HasSuffix(f.Class, "/crash") && code == 3) || (strings.HasSuffix(f.Class, "/hang") && code == 4) {
+		unconfirmable := strings.HasSuffix(f.Class, "/crash") || strings.HasSuffix(f.Class, "/hang") || strings.HasSuffix(f.Class, "/data-race")
+		if ((strings.HasSuffix(f.Class, "/crash") || strings.HasSuffix(f.Class, "/data-race")) && code == 3) || (strings.HasSuffix(f.Class, "/hang") && code == 4) {
 			code = 1
+		}
+		if unconfirmable && code != 1 {
+			// the worker died or stalled but the scenario alone does not do it again in a fresh
+			// process (twice): an event of this machine (load, memory), not a property of the
+			// code under test. Counted in the evidence, not a verdict and not a failure.
+			if code2 := runReplayProcess(exeFor(f.Variant), f.Replay, f.Variant); (code2 == 3 && !strings.HasSuffix(f.Class, "/hang")) || (code2 == 4 && strings.HasSuffix(f.Class, "/hang")) {
+				code = 1
+			} else {
+				unconfirmed++
+				fmt.Fprintf(os.Stderr, "pqsim: note: a worker %s while executing run %d did not reproduce in two fresh processes; counted as unconfirmed_worker_incidents, not reported\n", f.Class[strings.LastIndex(f.Class, "/")+1:], f.RunIndex)
+				continue
+			}
 		}
 		switch code {
 		case 1:
@@ -593,6 +610,7 @@ func Driver(propID, tier string, baseSeed uint64) int {
 	}
 
 	wall := time.Since(start).Seconds()
+	m.Probes["unconfirmed_worker_incidents"] = unconfirmed
 	if err := writeEvidence(p, info, tier, baseSeed, &m, wall, violations, knownLines, variantsRun, nw); err != nil {
 		fmt.Fprintln(os.Stderr, "pqsim: cannot write evidence:", err)
 		trouble = true
